@@ -1,15 +1,15 @@
 #!/bin/bash
 # run_against_patch.sh <patch> [props...]: applies the patch to a scratch copy of /repo's working tree and runs the
 # given (default: all) property checks against it in child mode. Prints one line per property with failing keys.
-PATCH=$1; shift
-PROPS=${@:-$(/verif/bin/samlint list | cut -d' ' -f1)}
+PATCH=$1; shift; SAMLINT=${SAMLINT:-/verif/bin/samlint}
+PROPS=${@:-$($SAMLINT list | cut -d' ' -f1)}
 D=$(mktemp -d /tmp/samlint-rap-XXXXXX)
 rsync -a --exclude .git /repo/ $D/
 if ! (cd $D && git apply --whitespace=nowarn "$PATCH" 2>/dev/null); then echo "PATCH DOES NOT APPLY: $PATCH"; rm -rf $D; exit 3; fi
 export GOFLAGS=-mod=mod GOPROXY=off GOSUMDB=off GOTOOLCHAIN=local; unset GOWORK
 if ! (cd $D && go build ./... 2>/dev/null); then echo "PATCHED TREE DOES NOT BUILD"; rm -rf $D; exit 4; fi
 rc=0
-echo $PROPS | tr ' ' '\n' | xargs -P 6 -I{} sh -c "/verif/bin/samlint check -child -prop {} -repo $D -verif /verif > $D/.out-{} 2>&1; echo \$? > $D/.rc-{}"
+echo $PROPS | tr ' ' '\n' | xargs -P 6 -I{} sh -c "$SAMLINT check -child -prop {} -repo $D -verif /verif > $D/.out-{} 2>&1; echo \$? > $D/.rc-{}"
 for p in $PROPS; do
   r=$(cat $D/.rc-$p)
   if [ "$r" != "0" ]; then rc=1; echo "$p: ALARM ($(grep -c CHILD-FAIL $D/.out-$p) obligations)"; grep CHILD-FAIL $D/.out-$p | sed 's/CHILD-FAIL //' | jq -r '"    " + .key + " :: " + (.detail|.[0:160])' 2>/dev/null | head -4; [ "$r" = "2" ] && head -3 $D/.out-$p; fi
